@@ -49,7 +49,7 @@ func init() {
 			{Name: "readslice-fast-path-off-by-one", File: "bfe_bufio/bufio.go", Old: "		b.r += i + 1\n\n		b.TotalRead += i + 1\n", New: "		b.r += i + 1\n\n		b.TotalRead += i\n", Expect: "lockstep|Reader.ReadSlice:return#1"},
 			{Name: "readslice-bufferfull-counter-wrong", File: "bfe_bufio/bufio.go", Old: "			b.TotalRead += len(b.buf)\n", New: "			b.TotalRead += len(b.buf) - 1\n", Expect: "lockstep|Reader.ReadSlice:return#4"},
 			{Name: "unreadrune-counter-dropped", File: "bfe_bufio/bufio.go", Old: "	if b.TotalRead >= b.lastRuneSize {\n		b.TotalRead -= b.lastRuneSize\n	}\n", New: "", Expect: "lockstep|Reader.UnreadRune:"},
-			{Name: "writebuf-guard-weakened", File: "bfe_bufio/bufio.go", Old: "	b.r += n\n\n	if n > 0 {\n		b.TotalRead += n\n	}", New: "	b.r += n\n\n	if n > 1 {\n		b.TotalRead += n\n	}", Expect: "lockstep|Reader.writeBuf:"},
+			{Name: "writebuf-guard-weakened", File: "bfe_bufio/bufio.go", Old: "	b.r += n\n\n	if n > 0 {\n		b.TotalRead += n\n	}", New: "	b.r += n\n\n	if n > 1 {\n		b.TotalRead += n\n	}", Expect: "lockstep|Reader.WriteTo:"},
 			{Name: "write-error-path-counter-dropped", File: "bfe_bufio/bufio.go", Old: "	if b.err != nil {\n		b.TotalWrite += nn\n		return nn, b.err\n	}\n	n := copy(b.buf[b.n:], p)", New: "	if b.err != nil {\n		return nn, b.err\n	}\n	n := copy(b.buf[b.n:], p)", Expect: "lockstep|Writer.Write:"},
 			{Name: "writebyte-counter-dropped", File: "bfe_bufio/bufio.go", Old: "	b.n++\n	b.TotalWrite++\n", New: "	b.n++\n", Expect: "lockstep|Writer.WriteByte:"},
 			{Name: "readfrom-passthrough-counter-dropped", File: "bfe_bufio/bufio.go", Old: "			n, err = w.ReadFrom(r)\n			b.TotalWrite += int(n)\n", New: "			n, err = w.ReadFrom(r)\n", Expect: "lockstep|Writer.ReadFrom:return#1"},
